@@ -399,6 +399,7 @@ var hostileSnippets = []string{
 	`{"additionalProperties":{"uniqueItems":true},"uniqueItems":true}`, `{"contains":{"const":[1,2]},"uniqueItems":true}`,
 	`{"minimum":1,"$ref":"#/minimum/type"}`, `{"maxLength":1,"allOf":[{"$ref":"#/maxLength/items"}]}`, `{"const":{"properties":{}},"allOf":[{"$ref":"#/const/properties"}]}`,
 	`{"default":{"not":{}},"allOf":[{"$ref":"#/default/not"}]}`, `{"type":["string"],"allOf":[{"$ref":"#/type/0"}]}`, `{"title":"x","allOf":[{"$ref":"#/title/0"}]}`,
+	`{"allOf":[true,{"$ref":"#/allOf/9223372036854775808"}]}`, `{"prefixItems":[{}],"allOf":[{"$ref":"#/prefixItems/18446744073709551615"}]}`, `{"anyOf":[{}],"$ref":"#/anyOf/4294967296"}`,
 	`{"if":false,"then":false}`, `{"unevaluatedItems":false,"prefixItems":[],"contains":{}}`, `{"$defs":{"a":{"$ref":"#/$defs/a"}},"$ref":"#/$defs/a"}`,
 }
 
@@ -541,7 +542,7 @@ func genC10(t *rapid.T) *c10Case {
 				}
 			}
 			if n(2, "walkextra") == 0 {
-				ptr += "/" + rapid.SampledFrom([]string{"type", "0", "properties", "-", "items", "not", "", "minimum", "const"}).Draw(t, "walkextraseg")
+				ptr += "/" + rapid.SampledFrom([]string{"type", "0", "properties", "-", "items", "not", "", "minimum", "const", "9223372036854775808", "18446744073709551615", "4294967296", "-1", "+0"}).Draw(t, "walkextraseg")
 			}
 			w := jv.ObjV()
 			if sv := doc.Get("$schema"); doc.K == jv.Obj && sv != nil {
